@@ -191,6 +191,16 @@ func (e *Engine) GenVC(fn *ssa.Function, opts VerifyOpts) (res *FuncVC) {
 			fr.assumeLemma(ln, fr.entry)
 		}
 	}
+	// The synthetic package initialiser runs once: the Go runtime enters it with its guard variable false. (Without this
+	// the path "already initialised, return at once" would make every postcondition about the initialised globals unprovable.)
+	if fn.Synthetic != "" && fn.Name() == "init" && fn.Pkg != nil {
+		if g, ok := fn.Pkg.Members["init$guard"].(*ssa.Global); ok {
+			if gv, ok := vc.load(st, vc.globalPtr(g), types.Typ[types.Bool]).(Scalar); ok {
+				entryFacts = append(entryFacts, not(gv.T))
+				vc.note("package initialiser verified from its first (and only) activation: init$guard is false at entry (Go runtime)")
+			}
+		}
+	}
 	if opts.AllocBound != "" {
 		ex, err := parseExprString(rewriteImplies(opts.AllocBound))
 		if err != nil {
@@ -245,8 +255,12 @@ func (e *Engine) GenVC(fn *ssa.Function, opts VerifyOpts) (res *FuncVC) {
 	if fr.contract != nil {
 		for i, h := range fr.contract.Hints {
 			if !fr.hintApplied[i] {
-				res.ContractErr = fmt.Sprintf("assert before %s@%d: the function has no such call (clause: %s)", h.Callee, h.K, h.C.Text)
-				break
+				// The cut is attached to a call site that the code no longer has. The claimed obligation cannot be generated,
+				// so it cannot be discharged: it is reported as an undischarged obligation of this function (the verifier did not
+				// accept it), not as a tool error - a change that removes the guarded operation must not turn the check silent.
+				an := fmt.Sprintf("%s#assert:%s@%d.%d", fname, h.Callee, h.K, i+1)
+				vc.obligs = append(vc.obligs, &Oblig{Name: an, Kind: "assert", Reach: "true", Goal: "false", Pos: fn.Pos(), Func: fn.String(),
+					Text: fmt.Sprintf("ANCHOR MISSING: the function has no call %s@%d any more, the cut cannot be generated (clause: %s)", h.Callee, h.K, h.C.Text)})
 			}
 		}
 	}
